@@ -504,6 +504,12 @@ def g_circ():
         ([2, 2, 2], [1, 2, 3], 2),
         ([2, 1, 2], [2, 3, 3], 1),
         ([1, 1], [1, 1], None),
+        # filter batch axes BEYOND the input rank combined with a singleton input axis broadcast against h (the adjoint
+        # first sums the leading batch axes, then the broadcast axis: axis bookkeeping in two coordinate systems)
+        ([2, 3, 2], [1, 3], 1),
+        ([3, 2, 2, 2], [1, 3, 2], 2),
+        ([2, 2, 1, 2], [2, 1, 3], 1),
+        ([2, 3, 2, 2], [1, 1, 3], 1),
     ]
     for (hdt, idt), (hs, ish, nd) in itertools.product(dts, shapes):
         yield {"cls": "CircularConvolve", "hshape": hs, "ishape": ish, "ndims": nd, "hdt": hdt, "idt": idt}
@@ -722,6 +728,15 @@ def g_xray():
             yield {"cls": "XRayTransform3D", "ishape": ish, "det": det, "angles": a, "seq": "X"}
             yield {"cls": "XRayTransform3D", "ishape": ish, "det": det, "angles": a, "seq": "Y"}
             yield {"cls": "XRayTransform3D", "ishape": ish, "det": det, "angles": a, "seq": "Z", "shift": [1.25, -0.75]}
+    # detector LARGER than the volume with the object shifted partly off its first rows/columns: negative detector
+    # indices must be redirected beyond the DETECTOR extent (2-D: y0 moves the detector origin into the object)
+    for ish in [[3, 3], [2, 4]]:
+        for a in [[0.0], [0.3, 1.1, 2.5]]:
+            yield {"cls": "XRayTransform2D", "ishape": ish, "angles": a, "det_count": 12, "y0": 0.0}
+            yield {"cls": "XRayTransform2D", "ishape": ish, "angles": a, "det_count": 12, "y0": -1.25}
+    for ish, det, shift in [([12, 2, 2], [14, 5], [-2.25, -0.75]), ([12, 1, 2], [3, 13], [-0.5, -1.5]), ([2, 2, 2], [6, 7], [-1.25, -0.5])]:
+        yield {"cls": "XRayTransform3D", "ishape": ish, "det": det, "angles": [0.0, 0.4], "seq": "Y", "shift": shift}
+        yield {"cls": "XRayTransform3D", "ishape": ish, "det": det, "angles": [0.3], "seq": "Z", "shift": shift}
     # more than MAX_SLICE_LEN = 10 slices along axis 0: the slab loops of _project / _back_project run twice and the
     # second slab needs its slice offset (views whose matrix has a non-zero first column)
     for ish, det in [([11, 1, 2], [12, 3]), ([12, 2, 1], [13, 3]), ([21, 1, 1], [22, 2])]:
